@@ -180,7 +180,7 @@ Section HierSpec.
   Proof.
     intros s pt rs rt ct bd dh Ors.
     pose proof (status_hier s (spell_prefix ps pt) b (req_path ps rs rt) ct bd dh) as ST.
-    unfold hier_spec, spec_answer, hier_model. fold ps b.
+    unfold hier_spec, spec_answer, spec_answer_gen, hier_model. fold ps b.
     apply andb_true_intro. split.
     { apply observe_strict. intros E. rewrite E in ST. exact ST. }
     clear ST. pose proof (decode_asked ct bd) as DA.
